@@ -191,6 +191,12 @@ pub fn cases<T: KS + Send + Sync>(out: &mut Out, rng0: &mut Rng, tier: &Tier, wh
         let g2v = g2.as_ref().map(base_nodes_v);
         if which == "C01" {
             out.case("c.compress", l(vec![nu(k), st.clone(), n(mode), l(order.clone())]), opt(g2v.clone()));
+            // the verified checkers on the sorted-slice entry point's own output as well
+            if let Some(g) = &g2v {
+                out.case("chk.c01", l(vec![nu(k), st.clone(), l(order.clone()), g.clone()]), b(true));
+                out.case("chk.c01.order", l(vec![nu(k), st.clone(), l(order.clone()), g.clone()]), b(true));
+            }
+            out.case("chk.total", l(vec![nu(k), st.clone(), n(mode), l(order.clone())]), b(g2v.is_some()));
         } else {
             if let Some(g) = &g2v {
                 out.case("chk.c02p", l(vec![nu(k), st.clone(), n(mode), l(order.clone()), g.clone()]), b(true));
